@@ -1,6 +1,7 @@
 """C14  A content sequence and its name index never disagree.
 
-Tie T: T14 (the relationship-type decision trees of __init__ / append / insert / __setitem__, regenerated).
+Tie T: T14 (the relationship-type decision trees of __init__ / append / insert / __setitem__, regenerated), T14p (method
+bodies as programs), T14v (expressions the hand-written parts copy), T14s (object state: attributes, properties, hooks).
 Tie C: random operation histories on `highdicom.sr.ContentSequence` (root / non-root SR / non-SR) are
 run on the implementation and on the Lean model (Model/SRContentSeq.lean, driver fn "history"); after
 the construction and after EVERY operation the list, every `find`, every `index` / `in` and `get_nodes`
@@ -35,11 +36,17 @@ ASSUMPTIONS = [
     'never mutated after creation); concept-name equality/hash is CodedConcept.__eq__/__hash__ (property C17)',
     'pydicom ConstrainedList list semantics (append/insert/extend/__setitem__/__delitem__ on the underlying list) and '
     'CPython slice.indices are re-defined in the model and compared on every step',
+    'arguments of the QUERIES are content items (index / in of something else raise TypeError; a list would answer ValueError / '
+    'False) and items are not mutated after they entered a sequence (a renamed item stays filed under its old name): both '
+    'outside the quantifier of the property; run once on the real code, see docs/C14.md',
 ]
 MODELLED_NOT_VERIFIED = ['pydicom.sequence.Sequence / ConstrainedList (list mutation primitives)',
                          'CPython list slicing (slice.indices, extended-slice assignment)',
                          'collections.abc.MutableSequence mixins pop/remove/reverse/clear (modelled as their source reads)',
-                         'pydicom Dataset.__eq__']
+                         'pydicom Dataset.__eq__',
+                         'CPython copy protocol on an object without hooks (copy.copy = second name for list and index, '
+                         'copy.deepcopy / pickle = equal sequence of new objects): Model/SRSeqPool.lean, tied by the pool histories; '
+                         'that the class has no hooks and no further state is regenerated (T14s) and proved (object_state_pinned)']
 
 POOL_OPS = ('clone', 'attach', 'copy', 'deepcopy', 'pickle')
 PARTIAL_OPS = ('extend', 'iadd', 'extend_self', 'extend_other')      # keep what they appended before the offending item
